@@ -12,6 +12,9 @@ What is proved here (about the definitions the driver executes, `Model/Registry.
   * `query_exact`, `query_piecewise_const`            — the lookup, for every table and address;
   * `index_delimits_oui/_iab`, `index_rows_oui/_iab`, `index_no_record`, `oui_recKey`, `iab_recKey`,
     `iab_second_base16`, `specRows_total`              — the index parsers on every well-formed text;
+  * `index_any_file`, `index_any_file_slices`         — the same for EVERY byte string (each file has exactly
+    one reading as header + records; no record = AttributeError);
+  * `oui_key(_canonical)`, `iab_key(_canonical)`      — which identifier a row carries;
   * `parseLines_ok`, `parseLines_ok_iff`, `parseLines_err`, `registered_iff`, `lookup_spec`,
     `lookup_through_index_oui/_iab`
                                                         — record retrieval through the index.
@@ -301,6 +304,57 @@ theorem iab_recKey (h b : Line) (t1 t2 : List Line)
 theorem iab_second_base16 (n : Int) (b : Line) (hb : hasBase16 b = true) :
     iabCont (.num n) b = .error .other := by
   simp [iabCont, hb]
+
+/-! ## … and on every file whatsoever -/
+
+/-- **the parser loop on ANY file**: read the lines as `readline()` does and split them the only
+    possible way into header (before the first `(hex)` line) and records (each from one `(hex)`
+    line up to the next); then the parser raises AttributeError if there is no record, and
+    otherwise returns exactly the specified rows — no well-formedness assumption left. -/
+theorem genIndex_any_file {K : Type} (start : Line → R K) (cont : K → Line → R K) (bs : List Nat) :
+    genLoop start cont (pyLines bs) true none 0 0 =
+      (if (decompose (pyLines bs)).2 = [] then .error .other
+       else specRows start cont (lenSum (decompose (pyLines bs)).1) (decompose (pyLines bs)).2) := by
+  have hne := pyLines_ne_nil bs
+  have hfl := decompose_flatten (pyLines bs)
+  have hb : ∀ l ∈ (decompose (pyLines bs)).1, BodyLine l := fun l hl =>
+    ⟨hne l (decompose_header _ l hl).2, (decompose_header _ l hl).1⟩
+  split
+  · rename_i hnil
+    rw [hnil, List.flatten_nil, List.append_nil] at hfl
+    rw [← hfl]
+    exact genLoop_no_record start cont _ hb
+  · rename_i hnn
+    have hr : ∀ r ∈ (decompose (pyLines bs)).2, RecWF r := by
+      intro r hr
+      obtain ⟨h, t, rfl, h1, h2, h3⟩ := decompose_records _ r hr
+      exact ⟨h, t, rfl, h1, fun l hl => ⟨hne l (h3 l (by simp [hl])), h2 l hl⟩⟩
+    have := genLoop_delimits start cont _ _ hb hr hnn
+    rw [hfl] at this
+    exact this
+
+/-- for both parsers, on every byte string -/
+theorem index_any_file (bs : List Nat) :
+    ouiIndex bs = (if (decompose (pyLines bs)).2 = [] then .error .other
+      else specRows ouiStart ouiCont (lenSum (decompose (pyLines bs)).1) (decompose (pyLines bs)).2) ∧
+    iabIndex bs = (if (decompose (pyLines bs)).2 = [] then .error .other
+      else specRows iabStart iabCont (lenSum (decompose (pyLines bs)).1) (decompose (pyLines bs)).2) :=
+  ⟨genIndex_any_file ouiStart ouiCont bs, genIndex_any_file iabStart iabCont bs⟩
+
+/-- and the rows cut the file exactly: their byte ranges are the records, in order, and
+    header + records is the whole file -/
+theorem index_any_file_slices (bs : List Nat) :
+    All2 (fun (os : Nat × Nat) r => slice bs os.1 os.2 = r.flatten)
+      (layout (lenSum (decompose (pyLines bs)).1) (decompose (pyLines bs)).2) (decompose (pyLines bs)).2 ∧
+    ((decompose (pyLines bs)).1 ++ (decompose (pyLines bs)).2.flatten).flatten = bs := by
+  have hfl := decompose_flatten (pyLines bs)
+  have hbs : ((decompose (pyLines bs)).1 ++ (decompose (pyLines bs)).2.flatten).flatten = bs := by
+    rw [hfl, pyLines_flatten]
+  refine ⟨?_, hbs⟩
+  have := layout_slices (decompose (pyLines bs)).2 (decompose (pyLines bs)).1.flatten []
+  rw [← lenSum_eq_flatten] at this
+  simp only [List.append_nil, ← List.flatten_append, hbs] at this
+  exact this
 
 /-! ## which identifier a row carries -/
 
@@ -675,6 +729,8 @@ example : recKey iabStart iabCont [bytes "00-50-C2   (hex)\t\tACME\r\n", bytes "
 example : ouiIndex (exHd ++ exRecs.flatten).flatten = .ok [(0xCAFE, 21, 83), (0x50C2, 104, 72)] := by decide +kernel
 example : iabIndex (exRecs.drop 1).flatten.flatten = .ok [(.num 0x0050C2ABC, 0, 72)] := by decide +kernel
 example : ouiIndex exHd.flatten = .error .other := by decide +kernel
+/-- the canonical reading of the example file is the header and the two records it was built from -/
+example : decompose (pyLines (exHd ++ exRecs.flatten).flatten) = (exHd, exRecs) := by decide +kernel
 
 example : query ⟨[⟨0, .net ⟨4, 0x0A000000, 8⟩⟩], [], [], [⟨0, .rng ⟨4, 0xE0000100, 0xE00001FF⟩⟩, ⟨1, .addr ⟨4, 0xE0000101⟩⟩]⟩
     ⟨4, 0xE0000101⟩ = ⟨[], [], [], [⟨0, .rng ⟨4, 0xE0000100, 0xE00001FF⟩⟩, ⟨1, .addr ⟨4, 0xE0000101⟩⟩]⟩ := by decide +kernel
